@@ -33,6 +33,11 @@ def source(enum, variants, rule, tag, content, flavour="plain", spelling="merged
         groups = [tc or ["deny_unknown_fields"], ra]
     elif spelling == "split_rev":
         groups = [ra, tc or ["deny_unknown_fields"]]
+    elif spelling == "after_list":
+        # a nested-LIST argument stands before the arguments that matter, in the same attribute
+        groups = [['bound(deserialize = "")'] + tc + ra]
+    elif spelling == "between_lists":
+        groups = [tc[:1] + ['bound(serialize = "", deserialize = "")'] + tc[1:] + ['rename(deserialize = "LegacySubject")'] + ra]
     else:
         groups = [["deny_unknown_fields"]] + [[x] for x in tc] + [ra]
         attrs.append("/// doc")
